@@ -31,8 +31,8 @@ M = [
  ("C13-orphan-sign", "C13", "mempool/mempool.go", "\t// update the total number of orphan txns (nonce too high)\n\tmp.orphan -= diff", "\t// update the total number of orphan txns (nonce too high)\n\tmp.orphan += diff"),
  ("C13-filter-keeps-equal-nonce", "C13", "types/transaction.go", "\tif (senderState.GetNonce() + 1) > tx.GetBody().GetNonce() {", "\tif senderState.GetNonce() > tx.GetBody().GetNonce() && senderState.GetNonce() > 3 {"),
  ("C13-cache-not-cleaned-on-block", "C13", "mempool/mempool.go", "\t\tmp.orphan -= diff\n\t\tfor _, tx := range delTxs {\n\t\t\tmp.cache.Delete(types.ToTxID(tx.GetHash()))\n", "\t\tmp.orphan -= diff\n\t\tfor _, tx := range delTxs {\n\t\t\t_ = tx\n"),
- ("C15-total-not-reduced-on-unstake", "C15", "contract/system/staking.go", "\tif err := subTotal(scs, balanceAdjustment); err != nil {\n\t\treturn nil, err\n\t}", ""),
- ("C15-votes-not-shrunk", "C15", "contract/system/vote.go", "\t\tif oldvote.Amount == nil ||\n\t\t\tnew(big.Int).SetBytes(oldvote.Amount).Cmp(stakedAmount) <= 0 {\n\t\t\tcontinue\n\t\t}", "\t\tif oldvote.Amount == nil || true {\n\t\t\tcontinue\n\t\t}"),
+ ("C15-total-not-reduced-on-unstake", "C15", "contract/system/staking.go", "\tif err := subTotal(scs, balanceAdjustment); err != nil {\n\t\treturn nil, err\n\t}", "\t_ = scs"),
+ ("C15-votes-not-shrunk", "C15", "contract/system/vote.go", "\t\tif oldvote.Amount == nil ||\n\t\t\tnew(big.Int).SetBytes(oldvote.Amount).Cmp(stakedAmount) <= 0 {\n\t\t\tcontinue\n\t\t}", "\t\tif oldvote.Amount == nil || stakedAmount != nil {\n\t\t\tcontinue\n\t\t}"),
  ("C15-name-update-without-owner-check", "C15", "contract/name/execute.go", "\t\tif (!bytes.Equal(tx.Account, []byte(nameArg))) &&\n\t\t\t(!bytes.Equal(tx.Account, getOwner(scs, []byte(nameArg), false))) {", "\t\tif false {"),
  ("C20-send-guard", "C20", "contract/vm_callback.go", "\tif (ctx.isQuery == true || ctx.nestedView > 0) && amountBig.Cmp(zeroBig) > 0 {", "\tif false && amountBig.Cmp(zeroBig) > 0 {"),
  ("C20-nestedview-not-counted", "C20", "contract/vm_callback.go", "\tctx.nestedView++\n", "\t_ = ctx\n"),
